@@ -27,7 +27,7 @@ func init() {
 			if a.Counters["bytes_equal"] < 1000 {
 				return fmt.Errorf("only %d encodings compared equal", a.Counters["bytes_equal"])
 			}
-			return nil
+			return needKinds(a, "kinds", "ctrl")
 		},
 		Assumptions: []string{
 			"the reference encoder/decoder (harness/spec) is transcribed from OpenFlow 1.3.5, OVS nicira-ext.h/meta-flow.h and ONF EXT-230 as written out in SPEC_NOTES.md; it is validated to be self-inverse on the generated corpus (harness/gen/gen_test.go)",
